@@ -95,6 +95,9 @@ func (p *protocolAdaptor) clientGetProtocolInitializer() (initializer protocolIn
 
 	serverVersion := recvHeader.Version()
 	chosenVersion := uint8(minInt(clientVersion, int(serverVersion)))
+	if chosenVersion < 3 && p.session.config.MemMapType == MemMapTypeMemFd {
+		return nil, fmt.Errorf("peer only supports protocol version %d, which cannot share memory by memfd", serverVersion)
+	}
 
 	initializer, err = createProtoVersionInitializer(p.session, chosenVersion, nil)
 	if err != nil {
